@@ -1,6 +1,6 @@
 (* GENERATED ONCE by tools/pin.py from Properties/C01.v and committed: the pinned statements. *)
 From VF.Properties Require C01.
-From VF Require Import Base Gen_Errors Lexer Response Tree Lexer_proofs Tree_proofs.
+From VF Require Import Base Gen_Errors Lexer Response Tree Conv Lists Lexer_proofs Tree_proofs Conv_proofs Lists_proofs.
 Open Scope N_scope.
 
 Section C01_statements.
@@ -28,4 +28,17 @@ Proof. apply VF.Properties.C01.C01_pull_only_data. Qed.
 Goal forall toks t r,
   next_token toks = (Got t, r) -> is_data t = true.
 Proof. apply VF.Properties.C01.C01_pull_req_only_data. Qed.
+Goal forall tok, is_data tok = true ->
+  (forall t, exists r, conv_int t tok = Val r) /\ (forall t, exists r, conv_float t tok = Val r)
+  /\ (exists r, conv_bool tok = Val r) /\ (forall t, exists r, conv_bytes t tok = Val r).
+Proof. apply VF.Properties.C01.C01_conv_total. Qed.
+Goal forall expr, exists l, nlist_entries expr = Val l.
+Proof. apply VF.Properties.C01.C01_nlist_total. Qed.
+Goal forall expr r, clist_entries expr = Some r -> exists l, r = Val l.
+Proof. apply VF.Properties.C01.C01_clist_total. Qed.
+Goal forall s, exists l, spec_values s = Val l.
+Proof. apply VF.Properties.C01.C01_spec_values_total. Qed.
+Goal forall k s,
+  (exists r, spec_to_tuple k s = Val r) /\ (exists r, spec_to_utuple k s = Val r).
+Proof. apply VF.Properties.C01.C01_spec_tuple_total. Qed.
 End C01_statements.
